@@ -502,6 +502,10 @@ impl<T: Types> RaftLog<T> {
         &mut self,
         rec: &WALRecord<T>,
     ) -> Result<Segment, io::Error> {
+        // A record the state refuses must not reach the WAL, the log index or
+        // the payload cache.
+        self.state_machine.log_state.validate(rec)?;
+
         WAL::append(&mut self.wal, rec)?;
         let segment = self.wal.last_segment();
         StateMachine::apply(
